@@ -108,12 +108,13 @@ func (vm *VM) errIndexOutOfRange() runtimeError {
 func (vm *VM) newPanic(msg any) *PanicError {
 	// vm.pc has already been incremented: the instruction that panicked is
 	// the previous one.
-	info := vm.fn.InstructionInfo[vm.pc-1]
-	return &PanicError{
-		message:  msg,
-		path:     info.Path,
-		position: info.Position,
+	p := &PanicError{message: msg}
+	if vm.fn != nil {
+		info := vm.fn.InstructionInfo[vm.pc-1]
+		p.path = info.Path
+		p.position = info.Position
 	}
+	return p
 }
 
 // convertPanic converts a panic to an error.
@@ -128,7 +129,13 @@ func (vm *VM) convertPanic(msg any) error {
 		// TODO: check env.
 		return err
 	}
-	switch op := vm.fn.Body[vm.pc-1].Op; op {
+	// Deferred native calls are executed by the Return instruction or, with
+	// a nil vm.fn, while the function that deferred them is panicking.
+	op := OpReturn
+	if vm.fn != nil {
+		op = vm.fn.Body[vm.pc-1].Op
+	}
+	switch op {
 	case OpAddr, OpIndex, -OpIndex, OpIndexRef, -OpIndexRef, OpSetSlice, -OpSetSlice:
 		switch err := msg.(type) {
 		case runtime.Error:
@@ -154,7 +161,7 @@ func (vm *VM) convertPanic(msg any) error {
 			break
 		}
 		fallthrough
-	case OpCallNative:
+	case OpCallNative, OpReturn:
 		switch msg := msg.(type) {
 		case runtimeError:
 			break
